@@ -81,7 +81,8 @@ func init() {
 			err := e.Ctx.Fresh("hexerr", SInt)
 			e.Ctx.Assume(st.PC, Eq(Eq(err, Int(0)), ok))
 			b := e.Ctx.Fresh("hexbytes", SBytes)
-			e.Ctx.Assume(st.PC, Implies(ok, Eq(b, app(SBytes, "u_common_HexDec", args[0]))))
+			// DecodeString returns the bytes decoded before an error: its first result is a function of s
+			e.Ctx.Assume(st.PC, Eq(b, app(SBytes, "u_common_HexDec", args[0])))
 			e.Ctx.Assume(st.PC, Ge(app(SInt, "bytes_len", b), Int(0)))
 			return []Term{b, err}
 		},
